@@ -465,6 +465,9 @@ func (ka *sm2ECDHEKeyAgreement) processServerKeyExchange(hs *clientHandshakeStat
 
 	// 验证签名值，认证对端身份
 	signedParams := skx.key[4+publicLen:]
+	if len(signedParams) < 2 {
+		return errServerKeyExchange
+	}
 	sigLen := int(signedParams[0]) << 8
 	sigLen |= int(signedParams[1])
 	if sigLen+2 > len(signedParams) {
